@@ -86,14 +86,32 @@ fn gen_cases(rng: &mut Rng, tier: Tier) -> Vec<Value> {
                 cfg.multi_jobs = false;
                 cfg.jobs = (8, 20);
             }
+            // one problem in twelve makes the task order a dense hard rule: single-task jobs, most of them with an order of
+            // 1..3, breaks or reloads (activities without an order) in the tours, no tour-order objective
+            let ordered = i % 12 == 7;
+            if ordered {
+                cfg.order = true;
+                cfg.multi_jobs = false;
+                cfg.breaks = true;
+                cfg.reloads = i % 24 == 7;
+                cfg.groups = false;
+                cfg.jobs = (8, 18);
+            }
             let mut sp = gen_problem(rng, &cfg);
+            if ordered {
+                for job in sp.jobs.iter_mut().filter(|j| j.tasks.len() == 1) {
+                    if rng.chance(5, 6) {
+                        job.tasks[0].order = Some(rng.range(1, 3));
+                    }
+                }
+            }
             if clustered {
                 sp.clustering = Some(gen_clustering(rng, &sp));
                 return json!({"k": "clustered", "sp": sp, "row": i, "gens": gens, "relations": rng.chance(3, 4), "rseed": rng.next() % 1000});
             }
             // one problem in five states its objectives explicitly (work balance, compact tours, arrival time, fast service,
             // distance / duration instead of cost, maximize tours): whatever is optimised, the hard rules hold
-            if i % 5 == 3 {
+            if i % 5 == 3 && !ordered {
                 sp.objectives = gen_objectives(rng, &sp);
             }
             json!({"k": "solve", "sp": sp, "row": i, "gens": gens, "relations": rng.chance(1, 4), "rseed": rng.next() % 1000})
